@@ -130,4 +130,4 @@ def it_fld(ck, prog, v, name):
 
 
 if __name__ == '__main__':
-    sys.exit(main())
+    sys.exit(run_main(main))
